@@ -144,7 +144,7 @@ class Scale(EnvironmentFilter):
         if is_value_context:
             potential_keys = [0]
 
-        if not potential_keys:
+        if not potential_keys and not is_sparse_context:
             yield from chain(fitting_interactions,remaining_interactions)
             return
 
@@ -160,7 +160,7 @@ class Scale(EnvironmentFilter):
 
         #get the shift/scale values for columns
         scaling_vals = list(map(self._get_shift_and_scale,cols))
-        if all((v is None for v in scaling_vals)):
+        if all((v is None for v in scaling_vals)) and not is_sparse_context:
             yield from chain(fitting_interactions, remaining_interactions)
             return
 
@@ -179,12 +179,14 @@ class Scale(EnvironmentFilter):
 
         if is_sparse_context:
             scaling_dict = dict(zip(scaling_keys,scaling_vals))
+            #a key that is absent from the whole fitting window is a column of zeros in that window
+            unseen = self._get_shift_and_scale([0]*len(fitting_contexts))
             for interaction in chain(fitting_interactions, remaining_interactions):
                 context = interaction['context']
-                for k in scaling_dict.keys() & context.keys():
-                    if isinstance(context[k],(int,float)):
-                        (shift,scale) = scaling_dict[k]
-                        context[k] = (context[k]+shift)*scale
+                for k,v in context.items():
+                    pair = scaling_dict.get(k) if k in potential_keys else None if k in unscalable_cols else unseen
+                    if pair and isinstance(v,(int,float)):
+                        context[k] = (v+pair[0])*pair[1]
                 yield interaction
 
         elif is_value_context:
